@@ -394,14 +394,15 @@ def check(case, env):
                     continue
                 queries.append((c, name))
         asserted = len(queries)
-        lines = ["T = [];"]
+        # one describing function, called per query (the text stays small: parsing 150 copies of it dominated the run time)
+        lines = ['T = []; private _q = {private _e = _this; [isNull _e, isNumber _e, isText _e, isArray _e, isClass _e, getNumber _e, getText _e, getArray _e, '
+                 'if (isNull _e) then {""} else {configName _e}, if (isNull _e) then {0} else {count _e}, '
+                 'if (isNull _e) then {[]} else {private _o = []; for "_i" from 0 to (count _e) - 1 do {_o pushBack (configName (_e select _i))}; _o}, '
+                 'if (isNull _e) then {""} else {if (isNull (inheritsFrom _e)) then {""} else {configName (inheritsFrom _e)}}, '
+                 'if (isNull _e) then {[]} else {configHierarchy _e}]};']
         for c, name in queries:
             p = _path_sqf(m.path_of(c))
-            lines.append('private _e = %s >> "%s"; T pushBack [isNull _e, isNumber _e, isText _e, isArray _e, isClass _e, getNumber _e, getText _e, getArray _e, '
-                         'if (isNull _e) then {""} else {configName _e}, if (isNull _e) then {0} else {count _e}, '
-                         'if (isNull _e) then {[]} else {private _o = []; for "_i" from 0 to (count _e) - 1 do {_o pushBack (configName (_e select _i))}; _o}, '
-                         'if (isNull _e) then {""} else {if (isNull (inheritsFrom _e)) then {""} else {configName (inheritsFrom _e)}}, '
-                         'if (isNull _e) then {[]} else {configHierarchy _e}];' % (p, name))
+            lines.append('T pushBack ((%s >> "%s") call _q);' % (p, name))
         rep = r.run("\n".join(lines), vm=0, getvars=["T"], getvars_struct=True, timeout=20.0)
         errs = [l for l in rep.get("logs", []) if l["l"] <= 1]
         if errs or "T" not in rep.get("vars", {}):
